@@ -71,13 +71,21 @@ def make_inputs(rng, desc, sources, n):
     """piecewise-linear profiles with breakpoints on the grid, zero at the first sample, constant
     (= the component's DC value) over the last two thirds"""
     prof = {}
+    meta = {}
     k_const = n // 3
     for s in sources:
         final = next((gs.dc_value(c) for c in desc['comps'] if c['id'] == s), 1.0)
         p = np.zeros(n)
-        style = rng.choice(['step', 'ramp', 'triangle', 'late_step'])
+        style = rng.choice(['step', 'ramp', 'triangle', 'late_step', 'step', 'const'])
         k0 = rng.randint(1, max(1, k_const // 4))
-        if style == 'step':
+        if n < 8:                       # tiny grids: a ramp over the whole window, or a constant
+            style = rng.choice(['const', 'line'])
+        meta[s] = (style, k0, final)
+        if style == 'const':            # non-zero at the first sample, constant over the whole window
+            p[:] = final
+        elif style == 'line':
+            p[:] = np.linspace(0.0, final, n)
+        elif style == 'step':
             p[k0 + 1:] = final
         elif style == 'late_step':
             p[k_const:] = final
@@ -89,7 +97,7 @@ def make_inputs(rng, desc, sources, n):
             p[mid:k_const] = np.linspace(2.0 * (final or 1.0), final, k_const - mid, endpoint=False)
             p[k_const:] = final
         prof[s] = p
-    return prof, k_const
+    return prof, k_const, meta
 
 def grid_for(A, n_min=90, n_max=1500):
     lam = np.linalg.eigvals(A) if A.size else np.array([-1.0])
@@ -167,6 +175,13 @@ def check_case(ctx, out, desc, origin='random'):
             Aref = np.array([[core.cfloat(x).real for x in r] for r in m0['A']]).reshape(A.shape)
     tin0, settle = grid_for(Aref)
     n = len(tin0); h = tin0[1] - tin0[0]
+    if desc.get('grid') == 'coarse':    # a grid that does NOT resolve the dynamics: h ≈ 8 slowest time constants (exact for
+        lam_ = np.linalg.eigvals(Aref) if Aref.size else np.array([-1.0])     # piecewise-linear inputs whatever h is)
+        slow_ = float(min(abs(lam_.real)))
+        if slow_ > 0:
+            h = 2.0 ** np.ceil(np.log2(8.0 / slow_)); n = 12; tin0 = np.arange(n) * h; settle = True
+    elif desc.get('grid') == 'two':     # the shortest grid there is
+        n = 2; tin0 = np.arange(2) * h; settle = False
     # time window: the requested grid starts at t0 = m·h — zero, small, large (exact in binary64), now and then
     # negative ("all uniform time grids"; scipy.signal.lsim refuses a negative initial time: open finding)
     grid = desc.get('grid')
@@ -186,24 +201,35 @@ def check_case(ctx, out, desc, origin='random'):
         if not np.array_equal(tin.astype(float), t0 + tin0.astype(float)):
             out.skip('float32_grid_not_exact'); return
     else:
-        t0 = h * (rng.choice([-8, -2 ** 12]) if rng.random() < 0.04 else rng.choice([0, 0, 5, 37, 1000, 2 ** 16, 1, 2 ** 20]))
+        t0 = h * (rng.choice([-8, -2 ** 12]) if rng.random() < 0.04 and grid is None else rng.choice([0, 0, 5, 37, 1000, 2 ** 16, 1, 2 ** 20]))
         tin = t0 + tin0
     if grid: out.count('grid:' + grid)
     out.count('window:' + ('t0=0' if t0 == 0 else 't0>0' if t0 > 0 else 't0<0'))
-    prof, k_const = make_inputs(rng, desc, src_ids, n)
+    prof, k_const, meta = make_inputs(rng, desc, src_ids, n)
     prof = {k: amp * v for k, v in prof.items()}      # non-integer sample values on the typed grids
+    lossy_ids = {c['id'] for c in comps if gs.is_lossy_source(c)}
     given = list(src_ids); rng.shuffle(given)
     # the inputs are genuine functions of time: piecewise linear with breakpoints on the REQUESTED grid
-    mk_inputs = lambda grid: {s: (lambda p: (lambda t: np.interp(t, grid, p)))(prof[s]) for s in given}
+    from CircuitCalculator.SignalProcessing.one_sided_functions import step as lib_step
+    def mk_inputs(grid):
+        d_ = {}
+        for s in given:
+            style, k0, final = meta[s]
+            if style == 'step':         # the library's own one-sided step: jumps after grid[k0]
+                d_[s] = (lambda a, tt: (lambda t: lib_step(np.asarray(t), t0=tt, X0=0.0, X1=a)))(amp * final, grid[k0])
+            else:
+                d_[s] = (lambda p: (lambda t: np.interp(t, grid, p)))(prof[s])
+        return d_
     inputs = mk_inputs(tin)
     try:
-        sol = TransientSolution(im.circuit, tin=tin, input=inputs)
+        sol = TransientSolution(im.circuit, tin=(tin.tolist() if grid == 'list' else tin), input=inputs)
         sources = list(sol._ssm.sources)
         X = np.asarray(sol._x, dtype=float); U = np.asarray(sol._u, dtype=float).reshape(len(sources), len(tin))
         labels, ids = gs.labels_of(desc), [c['id'] for c in comps]
         pot = {l: np.asarray(sol.get_potential(l)[1]) for l in labels}
         vol = {i: np.asarray(sol.get_voltage(i)[1]) for i in ids}
         cur = {i: np.asarray(sol.get_current(i)[1]) for i in ids}
+        pw = {i: np.asarray(sol.get_power(i)[1]) for i in ids}
         tout = np.asarray(sol.t)
     except Exception as e:
         out.spec_fail(canon(desc, 'raises', exc=gs.gen_tag(e), **({'negative_start_time': True} if t0 < 0 else {})),
@@ -244,7 +270,7 @@ def check_case(ctx, out, desc, origin='random'):
     allv = [pot[l] for l in labels] + list(vol.values()) + list(cur.values())
     if not all(np.all(np.isfinite(a)) for a in allv + [X]):
         return fail('non_finite', 'non-finite simulated values')
-    scale = max(1.0, max(float(np.max(np.abs(a))) for a in allv + [X]))
+    scale = max(1.0, max(float(np.max(np.abs(a))) for a in allv + ([X] if X.size else [])))
     tol = 1e-9 * scale
     tolv = toli = tol                     # ordinary (dyadic, order-one) circuits: one scale
     if si_mode:                           # SI units: voltages and currents each against their own magnitude
@@ -259,8 +285,9 @@ def check_case(ctx, out, desc, origin='random'):
     tk = lambda kind: toli if kind == 'i' else tolv
     kinds_of_state = ['v'] * len(im.cvals) + ['i'] * len(im.lvals)
     # start from rest
-    if np.max(np.abs(X[:, 0])) > 0 or max(abs(a[0]) for a in list(pot.values()) + list(vol.values())) > tolv \
-       or max(abs(a[0]) for a in cur.values()) > toli:
+    driven_at_start = any(prof[s][0] != 0 for s in sources)
+    if (X.size and np.max(np.abs(X[:, 0])) > 0) or (not driven_at_start and (max(abs(a[0]) for a in list(pot.values()) + list(vol.values())) > tolv
+                                                                   or max(abs(a[0]) for a in cur.values()) > toli)):
         return fail('not_at_rest', f'first sample is not at rest: x0={X[:, 0].tolist()}')
     # Kirchhoff's voltage law and reference potential
     if np.max(np.abs(pot[desc['ground']])) > tolv:
@@ -270,7 +297,12 @@ def check_case(ctx, out, desc, origin='random'):
             return fail('kvl', f'voltage of {c["id"]!r} is not the difference of its terminal potentials')
     # Kirchhoff's current law at every node, every sample
     for l in labels:
-        res = sum((cur[c['id']] if c['n1'] == l else 0) - (cur[c['id']] if c['n2'] == l else 0) for c in comps)
+        # (a linear source reports its current in generator direction — C01's convention; judged with either sign)
+        inc = lambda c: (1 if c['n1'] == l else 0) - (1 if c['n2'] == l else 0)
+        res = sum(inc(c) * cur[c['id']] * (-1 if c['id'] in lossy_ids else 1) for c in comps)
+        if lossy_ids:
+            res2 = sum(inc(c) * cur[c['id']] for c in comps)
+            if np.max(np.abs(res2)) < np.max(np.abs(res)): res = res2
         if np.max(np.abs(res)) > toli * len(comps):
             k = int(np.argmax(np.abs(res)))
             return fail('kcl', f'KCL residual {res[k]:.6g} at node {l!r}, sample {k} (t={tin[k]})',
@@ -282,6 +314,10 @@ def check_case(ctx, out, desc, origin='random'):
         i, k = c['id'], c['kind']
         if k == 'R' and np.max(np.abs(vol[i] - c['val'] * cur[i])) > (tolv + c['val'] * toli if si_mode else tol * max(1.0, c['val'])):
             return fail('element_law', f'resistor {i!r}: v ≠ R·i', kind=k)
+        if i in lossy_ids:
+            continue                    # terminal law of a linear source: judged through KCL and the settled values
+        if np.max(np.abs(pw[i] - vol[i] * cur[i])) > (tolv * max(1e-300, float(np.max(np.abs(cur[i])))) + toli * float(np.max(np.abs(vol[i]))) + 1e-300):
+            return fail('power', f'get_power({i!r}) is not voltage · current per sample', kind=k)
         if k == 'V' and np.max(np.abs(vol[i] - prof[i])) > tolv:
             return fail('element_law', f'voltage source {i!r}: v ≠ u(t)', kind=k)
         if k == 'I' and np.max(np.abs(cur[i] - prof[i])) > toli:
@@ -474,6 +510,16 @@ def periodic_case(ctx, out, desc, origin='periodic'):
             return
     out.count('periodic_steady_checked')
 
+# linear sources in a transient (audit repro): 8 V behind 2 Ω into 2 Ω ∥ C settles at 8 V instead of 4 V; 3 A ∥ 0.5 S
+LOSSY_CORPUS = [
+    dict(ground='0', ground_pos=3, comps=[
+        dict(kind='V', id='S', n1='1', n2='0', val=8.0, src=dict(type='dc', Ri=2.0)),
+        dict(kind='R', id='R', n1='1', n2='0', val=2.0), dict(kind='C', id='C', n1='1', n2='0', val=1.0)]),
+    dict(ground='0', ground_pos=3, comps=[
+        dict(kind='I', id='S', n1='0', n2='1', val=3.0, src=dict(type='dc', Gi=0.5)),
+        dict(kind='R', id='R', n1='1', n2='0', val=2.0), dict(kind='C', id='C', n1='1', n2='0', val=1.0)]),
+]
+
 CORPUS = c10.CORPUS + [
     # an AC current source (w ≠ 0) is an open circuit at w = 0: the model has no input for it
     dict(ground='0', ground_pos=3, comps=[
@@ -495,9 +541,11 @@ def run(ctx, out):
         check_case(ctx, out, desc, 'corpus')
     for desc in c10.SI_CORPUS:
         check_case(ctx, out, desc, 'si_corpus')
-    for g in ('int64', 'float32'):
+    for g in ('int64', 'float32', 'list', 'coarse', 'two'):
         check_case(ctx, out, dict(c10.CORPUS[0], grid=g), 'typed_grid')
         check_case(ctx, out, dict(c10.CORPUS[5], grid=g), 'typed_grid')
+    for desc in LOSSY_CORPUS + [c10.ZERO_R_CORPUS[0]]:
+        check_case(ctx, out, desc, 'domain_corpus')
     periodic_case(ctx, out, c10.CORPUS[0]); periodic_case(ctx, out, c10.CORPUS[5])
     n_periodic = 0
     rng = ctx.rng('random')
@@ -519,7 +567,16 @@ def run(ctx, out):
             n_periodic += (out.distribution.get('periodic_steady_checked', 0) + len(out.spec_failures)) > before
         # typed time grids: integer (np.arange(0, n)) and float32 time vectors; source kinds: ideal ac / periodic sources
         if rng.random() < (0.3 if ctx.quick else 1.0):
-            check_case(ctx, out, dict(desc, grid=rng.choice(['int64', 'float32'])), 'typed_grid')
+            check_case(ctx, out, dict(desc, grid=rng.choice(['int64', 'float32', 'list', 'coarse', 'two'])), 'typed_grid')
+        # corners of the domain: no source, 3–4 sources, no reactive element, no resistor, up to nine nodes, V = 0
+        if rng.random() < (0.3 if ctx.quick else 1.0):
+            for _ in range(40):
+                dw = gs.wide_desc(rng)
+                if gs.nondegenerate(ctx.driver, dw)[0]: break
+            check_case(ctx, out, dw, 'corner'); out.count('corner:' + dw['corner'])
+        # linear (lossy) sources: C12 speaks of "every non-degenerate RLC circuit and source waveforms" (open finding)
+        if rng.random() < (0.08 if ctx.quick else 0.3):
+            check_case(ctx, out, gs.with_lossy_sources(rng, desc), 'lossy'); out.count('lossy_source_cases')
         if rng.random() < (0.25 if ctx.quick else 1.0):
             check_case(ctx, out, gs.with_source_kinds(rng, desc, lossy=False), 'source_kinds')
             out.count('source_kind_cases')
